@@ -494,6 +494,12 @@ func TypeSchema(r *rand.Rand, o TypeOpts) *model.Schema {
 		implementRoot(m)
 		s.Types = append(s.Types, m)
 		s.Mutation = mn
+	} else if o.CustomRoots && r.Intn(4) == 0 {
+		// an ORDINARY object type that merely has the default name of a root operation: the explicit schema definition
+		// does not list it, so it is no root operation type
+		s.Types = append(s.Types, &model.TypeDef{Kind: model.Object, Name: "Mutation", Fields: []*model.FieldDef{{Name: "mut", Type: model.Named("Int")}}})
+		q.Fields = append(q.Fields, &model.FieldDef{Name: "notARoot", Type: model.Named("Mutation")})
+		s.ExplicitSchema = true
 	}
 	if r.Intn(3) == 0 {
 		m := &model.TypeDef{Kind: model.Object, Name: sn, Fields: []*model.FieldDef{{Name: "sub", Type: model.Named(objs[0].Name)}}}
